@@ -47,7 +47,7 @@ def run(ctx):
     for _ in range(300 if T else 36):
         U, ops, st = fl.gen_world_case(r, r.choice([1, 2, 3, 4, 6, 9]), 24, revert_heavy=True)
         cases.append({"kind": "history", "backend": "file" if r.chance(1, 3) else "mem", "U": U, "ops": ops, "stats": st, "oracle": True})
-    c12.run_cases(ctx, binp, cases, "c13", shard=(len(cases) + 3) // 4)
+    c12.run_cases(ctx, binp, cases, "c13", shard=12)
     bad, mism = c12.report(ctx, cases, "perspective-revert")
     # ---- sessions: a failed action / receive is checkpoint; writes; revert
     binp14 = vlib.cargo_build(ctx, "hx-facts", bin="c14")
@@ -58,7 +58,7 @@ def run(ctx):
         scases = scases[:120]
     else:
         scases = scases[:24]
-    c14.run_session_cases(ctx, binp14, scases, "c13s", shard=(len(scases) + 3) // 4)
+    c14.run_session_cases(ctx, binp14, scases, "c13s", shard=12)
     c14.report_sessions(ctx, scases, "session-revert", "session_revert_exact / failed_call_exact' (coq/props/C13.v)")
     agg = {}
     for c in cases:
